@@ -427,14 +427,15 @@ def main(argv):
                 cases.append({"name": "%s-seq-%d" % (st, j), "store": st, "scheme": sch, "mode": "seq", "profile": profile, "ops": ops})
             for j in range(n_conc):
                 sch = "weak" if j % 2 else "simple"
-                g = 8 + rng.below(3)
+                n = 8 + rng.below(3)
+                # half of the histories: one call per goroutine (8-10 goroutines); the rest: two calls each
+                g = n if j % 4 < 2 else (n + 1) // 2
                 if st == "val":
-                    ops = gen_val(rng, g, "conc", pools, tables[sch])
+                    ops = gen_val(rng, n, "conc", pools, tables[sch])
                 else:
-                    ops = GEN[st](rng, g, "guarded" if j % 2 else "free")
-                per = 1
+                    ops = GEN[st](rng, n, "guarded" if j % 2 else "free")
                 cases.append({"name": "%s-conc-%d" % (st, j), "store": st, "scheme": sch, "mode": "conc", "profile": "conc",
-                              "goroutines": g, "ops": ops, "per": per})
+                              "goroutines": g, "ops": ops})
 
     # ---- run the real stores
     lines = []
@@ -444,7 +445,7 @@ def main(argv):
             lines += [o[0] for o in cs["ops"]]
         else:
             lines.append("C %s %s" % (cs["store"], cs["scheme"]))
-            lines += ["%d %s" % (i, o[0]) for i, o in enumerate(cs["ops"])]
+            lines += ["%d %s" % (i % cs.get("goroutines", len(cs["ops"])), o[0]) for i, o in enumerate(cs["ops"])]
         lines.append("E")
     rc, out, err = c.run_bin(binary, stdin="\n".join(lines) + "\n")
     blocks = parse_blocks(out)
@@ -468,7 +469,7 @@ def main(argv):
             cs["hist"] = []
             for l in bl:
                 g, i, inv, ret, d, term = l.split(" ", 5)
-                cs["hist"].append((int(g), int(inv), int(ret), term))
+                cs["hist"].append((int(g) + int(i) * cs.get("goroutines", len(cs["ops"])), int(inv), int(ret), term))
                 if d != "1":
                     deep_bad.append((cs, int(g)))
             cs["hist"].sort(key=lambda e: e[2])   # try the return order first: under a mutex it is almost always a witness
